@@ -146,6 +146,10 @@ Definition rv_at (r : rec_view) (x : rd_view) (o : nat) : rec_view :=
   {| rv_off := o; rv_labels := rv_labels r; rv_name_end := o + length (wire_of_labels (rv_labels r));
      rv_type := rv_type r; rv_class := rv_class r; rv_ttl := rv_ttl r; rv_rdlen := length (plain_rdata x) |}.
 
+Definition rv_with_labels (r : rec_view) (ls : list bytes) : rec_view :=
+  {| rv_off := rv_off r; rv_labels := ls; rv_name_end := rv_name_end r; rv_type := rv_type r;
+     rv_class := rv_class r; rv_ttl := rv_ttl r; rv_rdlen := rv_rdlen r |}.
+
 Definition rec_bytes (ls : list bytes) (t c ttl : N) (rd : bytes) : bytes :=
   wire_of_labels ls ++ be16_bytes t ++ be16_bytes c ++ be32_bytes ttl ++ be16_bytes (N.of_nat (length rd)) ++ rd.
 
@@ -460,6 +464,60 @@ Section Rec.
       + destruct Hrest as [Hse _]. split; [exact Hse|]. apply Cwf. reflexivity.
     - (* the reading *)
       unfold record_at. cbn [rv_at rv_with_ttl rv_off rv_labels rv_name_end rv_type rv_class rv_ttl rv_rdlen]. fold ne.
+      split; [exact Fcn|]. split; [exact Ft|]. split; [exact Fc|]. split; [exact Fttl|]. split; [exact Frl|].
+      split; [lia|]. split; [lia|]. split; assumption.
+    - exact Cx.
+  Qed.
+
+  (** a non-OPT record with any other well-formed owner name *)
+  Lemma rr_plain_labels sec seen off off1 seen1 : rr_wf p sec seen off off1 seen1 ->
+    exists r x, rv_off r = off /\ record_at p r off1 /\ rdata_at p r x /\
+      forall ls', is_opt r = false -> Forall label_ok ls' -> length (wire_of_labels ls') <= 255 -> bytes_ok (wire_of_labels ls') ->
+      bytes_ok (plain_record (rv_with_labels r ls', x)) /\
+      forall pre post,
+        let q := pre ++ plain_record (rv_with_labels r ls', x) ++ post in
+        let e := length pre + length (plain_record (rv_with_labels r ls', x)) in
+        rr_wf q sec seen (length pre) e seen1 /\ record_at q (rv_at (rv_with_labels r ls') x (length pre)) e /\
+        rdata_at q (rv_at (rv_with_labels r ls') x (length pre)) x.
+  Proof.
+    intros Hwf. destruct (rr_wf_full p sec seen off off1 seen1 Hwf) as (r & x & Hoff & Hr & Hx & Hflags).
+    exists r, x. split; [exact Hoff|]. split; [exact Hr|]. split; [exact Hx|].
+    (* tie the policy's own witnesses to the reading *)
+    destruct Hwf as (ne0 & t0 & rdlen0 & (ls0 & Hcn0) & Hne0 & Ht0 & Hrl0 & Ho0 & Hl0 & Hrest).
+    pose proof Hr as (Hcn & Ht & Hc & Httl & Hrl & Ho & Hl & HA & HAAAA).
+    rewrite Hoff in Hcn. destruct (cname_l_fun _ _ _ _ _ _ Hcn0 Hcn) as [Els Ene]. subst ne0 ls0.
+    pose proof (u16_at_fun _ _ _ _ Ht0 Ht) as Et. subst t0.
+    pose proof (u16_at_fun _ _ _ _ Hrl0 Hrl) as Erl. assert (Erl' : N.to_nat rdlen0 = rv_rdlen r) by lia.
+    rewrite Erl' in *. clear Erl.
+    assert (Hwf0 : (rv_type r =? TYPE_OPT)%N = false -> rdata_wf p (rv_type r) (rv_name_end r + 10) (rv_rdlen r)).
+    { intros E. rewrite E in Hrest. apply Hrest. }
+    assert (Hopt0 : (rv_type r =? TYPE_OPT)%N = true -> exists n, opts_tile p (rv_name_end r + 10) off1 n).
+    { intros E. rewrite E in Hrest. destruct Hrest as (_ & _ & _ & _ & Hn). exact Hn. }
+    destruct (rd_context p Hb r x off1 Hr Hx Hwf0 Hopt0) as (Hrdlt & Hrdok & HA' & HAAAA' & Hctx).
+    assert (Hlok : Forall label_ok (rv_labels r)) by (destruct Hcn as [_ Hna]; eapply name_at_labels_ok; exact Hna).
+    pose proof (wire_length_le _ _ _ _ Hcn) as Hwl.
+    pose proof (u16_lt _ _ _ Hb Ht) as Htlt. pose proof (u16_lt _ _ _ Hb Hc) as Hclt. pose proof (u32_lt _ _ _ Hb Httl) as Httllt. intros ls' Hno Hlok' Hwl' Hbw'.
+    change (plain_record (rv_with_labels r ls', x)) with (rec_bytes ls' (rv_type r) (rv_class r) (rv_ttl r) (plain_rdata x)).
+    split.
+    { unfold rec_bytes.
+      repeat (apply bytes_ok_app; [first [apply bytes_ok_be16|apply bytes_ok_be32|exact Hbw']|]). exact Hrdok. }
+    intros pre post.
+    destruct (plain_fixed ls' (rv_type r) (rv_class r) (rv_ttl r) (plain_rdata x) pre post Hlok' Hwl' Htlt Hclt Httllt Hrdlt)
+      as (Fcn & Ft & Fc & Fttl & Frl & Fe & Fle & Fq & FH).
+    set (q := pre ++ rec_bytes ls' (rv_type r) (rv_class r) (rv_ttl r) (plain_rdata x) ++ post) in *.
+    set (o := length pre) in *. set (ne := o + length (wire_of_labels ls')) in *.
+    set (Hd := pre ++ wire_of_labels ls' ++ be16_bytes (rv_type r) ++ be16_bytes (rv_class r) ++ be32_bytes (rv_ttl r) ++
+               be16_bytes (N.of_nat (length (plain_rdata x)))) in *.
+    destruct (Hctx Hd post (rv_at (rv_with_labels r ls') x o)) as (Cx & Cwf & Copt); [cbn [rv_at rv_with_labels rv_labels rv_name_end]; fold ne; lia|reflexivity|reflexivity|].
+    rewrite <- Fq in Cx, Cwf, Copt. rewrite FH in Cwf, Copt.
+    cbv zeta. split; [|split].
+    - (* the policy *)
+      exists ne, (rv_type r), (N.of_nat (length (plain_rdata x))).
+      split; [exists ls'; exact Fcn|]. split; [lia|]. split; [exact Ft|]. split; [exact Frl|].
+      rewrite Nat2N.id. split; [lia|]. split; [lia|].
+      unfold is_opt in Hno. rewrite Hno in Hrest |- *. destruct Hrest as [Hse _]. split; [exact Hse|]. apply Cwf. exact Hno.
+    - (* the reading *)
+      unfold record_at. cbn [rv_at rv_with_labels rv_off rv_labels rv_name_end rv_type rv_class rv_ttl rv_rdlen]. fold ne.
       split; [exact Fcn|]. split; [exact Ft|]. split; [exact Fc|]. split; [exact Fttl|]. split; [exact Frl|].
       split; [lia|]. split; [lia|]. split; assumption.
     - exact Cx.
